@@ -62,7 +62,7 @@ inline RunResult result_from(const J &j){ RunResult r; { const J &t = j.get("tap
 static std::string *g_cur_seed_line = nullptr;
 inline void fatal_cb(const char *cls,const std::string &msg){
 	RunResult r; r.fail(cls,msg,cls); r.hash = simk::trace_hash();
-	{ const std::string &t = simk::trace_text(); if(!t.empty()) r.msg += "\nTRACE(tail):\n" + (t.size() > 12000 ? t.substr(t.size()-12000) : t); }
+	{ const std::string &t = simk::trace_text(); size_t cap = getenv("VERIF_TRACE_CHARS") ? (size_t)atol(getenv("VERIF_TRACE_CHARS")) : 12000; if(!t.empty()) r.msg += "\nTRACE(tail):\n" + (t.size() > cap ? t.substr(t.size()-cap) : t); }
 	if(g_in_child && g_result_fd >= 0){ std::string s = result_json(r).str(); (void)!::write(g_result_fd,s.data(),s.size()); _exit(0); }
 	// in-process batch: report and die; the python driver restarts the worker after this seed
 	printf("V %s %s\n",g_cur_seed_line ? g_cur_seed_line->c_str() : "?",result_json(r).str().c_str()); fflush(stdout);
@@ -282,7 +282,7 @@ inline int main_impl(int argc,char **argv,Engine &e,const char *engine_name){
 		J rep; try { rep = J::parse(slurp(replay)); } catch(std::exception const &ex){ fprintf(stderr,"cannot parse %s: %s\n",replay.c_str(),ex.what()); return 2; }
 		J plan = rep.get("plan"); if(trace) plan["text_trace"] = true;
 		RunResult r = run_forked(e,plan);
-		J out = J::obj(); out["status"] = r.ok ? "ok" : "violation"; out["class"] = r.cls; out["fingerprint"] = r.fp; out["message"] = r.msg.substr(0,trace ? 20000 : 8000); out["trace_hash"] = (unsigned long long)r.hash;
+		J out = J::obj(); out["status"] = r.ok ? "ok" : "violation"; out["class"] = r.cls; out["fingerprint"] = r.fp; out["message"] = r.msg.substr(0,trace ? (getenv("VERIF_TRACE_CHARS") ? (size_t)atol(getenv("VERIF_TRACE_CHARS")) + 20000 : 20000) : 8000); out["trace_hash"] = (unsigned long long)r.hash;
 		out["expected_class"] = rep.gets("class"); out["expected_hash"] = rep.get("trace_hash"); out["same"] = (!r.ok && r.cls == rep.gets("class"));
 		printf("P %s\n",out.str().c_str());
 		return r.ok ? 0 : 1;
